@@ -11,7 +11,7 @@ static std::vector<KeySpec> KEYS;   // fixtures + fresh asymmetric keys
 struct Rend { int key; int octlen; uint64_t octseed; bool priv; int pad; bool strip; int algk; int kidk; int usek; int opsk; bool okp_x; int foreignk; bool in_set; };
 static const char *ALGSTR[] = {"", "RS256", "RS384", "RS512", "PS256", "PS384", "PS512", "ES256", "ES384", "ES512", "ES256K", "EdDSA", "HS256", "HS384", "HS512", "none", "XX999", "ps256", "Pxyz", "rs256"};
 static const int NALGSTR = 20;
-static const char *KIDS[] = {"", "k1", "a-much-longer-key-identifier-0123456789-0123456789-0123456789-0123456789-0123456789-0123456789-0123456789", "cl\xc3\xa9-\xe2\x82\xac-\xf0\x9f\x94\x91", "kid with spaces/and+symbols=", "0"};
+static const char *KIDS[] = {"", "k1", "a-much-longer-key-identifier-0123456789-0123456789-0123456789-0123456789-0123456789-0123456789-0123456789", "cl\xc3\xa9-\xe2\x82\xac-\xf0\x9f\x94\x91", "kid with spaces/and+symbols=", "0", "tenant%2Fsigning%2F2024", "a%%b-100%", "%d-%x-%5c-%%"};   // (the last three: percent signs, as in percent-encoded paths)
 static const char *USES[] = {"", "sig", "enc", "other", "SIG"};
 static const char *OPS[] = {"", "[]", "[\"sign\"]", "[\"verify\"]", "[\"sign\",\"verify\"]", "[\"encrypt\",\"decrypt\",\"wrapKey\",\"unwrapKey\",\"deriveKey\",\"deriveBits\"]", "[\"sign\",\"frobnicate\",7,null,\"verify\"]", "[\"Sign\"]", "\"sign\"", "[\"sign\",\"sign\"]"};
 static const int OPSV[] = {0, 0, 1, 2, 3, 0xfc, 3, 0, 0, 1};
@@ -82,7 +82,7 @@ static Imported import_doc(const std::string &doc, bool in_set) {
 
 static std::string run_case(const KeySpec &k, const Rend &r, bool *nt = nullptr) {
   CURKEY = k; CURR = r;
-  JwkOpts o; o.priv = r.priv; o.alg = ALGSTR[r.algk % NALGSTR]; o.kid = KIDS[r.kidk % 6]; o.use = USES[r.usek % 5]; o.key_ops = OPS[r.opsk % 10];
+  JwkOpts o; o.priv = r.priv; o.alg = ALGSTR[r.algk % NALGSTR]; o.kid = KIDS[r.kidk % 9]; o.use = USES[r.usek % 5]; o.key_ops = OPS[r.opsk % 10];
   o.pad = (k.kind == K_OKP || k.kind == K_OCT) ? 0 : r.pad; o.strip = k.kind == K_EC && r.strip; o.okp_priv_with_x = r.okp_x;
   // the two rendering bits that only EC / OKP keys use mean something else for the other types: RSA primes written with p < q; members with '=' padding
   o.swap_pq = k.kind == K_RSA && r.priv && r.strip; o.eq_pad = k.kind != K_OKP && !r.okp_x;
@@ -154,7 +154,7 @@ int main(int argc, char **argv) {
     Rend r; r.key = *rc::gen::weightedElement<int>({{1, -1}, {4, 0}}) < 0 ? -1 : *UNI(0, (int)KEYS.size());
     r.octlen = *rc::gen::weightedElement<int>({{3, 0}, {1, 1}}) ? *rc::gen::element(1, 2, 3, 16, 31, 32, 33, 48, 64, 65, 128, 511, 512) : *UNI(1, 513); r.octseed = *UNI<uint64_t>(0, 1ULL << 40);
     r.priv = *UNI(0, 2); r.pad = *rc::gen::weightedElement<int>({{3, 0}, {1, 1}, {1, 2}, {1, 3}}); r.strip = *UNI(0, 3) == 0; r.algk = *rc::gen::weightedElement<int>({{2, 0}, {3, 1}}) ? *UNI(0, NALGSTR) : 0;
-    r.kidk = *UNI(0, 6); r.usek = *UNI(0, 5); r.opsk = *UNI(0, 10); r.okp_x = *UNI(0, 2); r.foreignk = *rc::gen::weightedElement<int>({{1, 0}, {2, 1}}) ? *UNI(1, NFOREIGN) : 0; r.in_set = *UNI(0, 2);
+    r.kidk = *UNI(0, 9); r.usek = *UNI(0, 5); r.opsk = *UNI(0, 10); r.okp_x = *UNI(0, 2); r.foreignk = *rc::gen::weightedElement<int>({{1, 0}, {2, 1}}) ? *UNI(1, NFOREIGN) : 0; r.in_set = *UNI(0, 2);
     KeySpec k = r.key < 0 ? oct_key("oct-gen", r.octlen, r.octseed) : KEYS[r.key];
     bool nt = false; std::string res = run_case(k, r, &nt);
     st.evaluations++; st.cls(k.kind == K_OCT ? std::string("oct") : k.kind == K_RSA ? std::string("RSA") : k.kind == K_EC ? "EC:" + k.crv : "OKP:" + k.crv);
